@@ -1,3 +1,4 @@
 import PG.Props.C20
 #print axioms PG.C20_order_indep
 #print axioms PG.C20_frames_order_indep
+#print axioms PG.C20_hash_ops_order_free
